@@ -10,7 +10,7 @@ check), record exit status and violation classes, undo the change
 The evidence files of these runs go to .work/seeded-evidence, never to evidence/.
 
 With --scratch the change is applied to a scratch worktree of /repo's HEAD
-(/tmp/vseed/wt, removed afterwards) and the checks are pointed at it with
+(/tmp/vseed/wt, or $VERIF_SCRATCH so that two sweeps do not share one; removed afterwards) and the checks are pointed at it with
 VERIF_REPO, so /repo itself is not touched and can be used meanwhile.
 """
 import json, os, re, subprocess, sys, time
@@ -50,7 +50,7 @@ def main():
     repo = "/repo"
     env = dict(os.environ, VERIF_EVIDENCE_DIR=os.path.join(V, ".work", "seeded-evidence"))
     if scratch:
-        repo = "/tmp/vseed/wt"
+        repo = os.environ.get("VERIF_SCRATCH") or "/tmp/vseed/wt"
         sh("git -C /repo worktree remove --force " + repo)
         os.makedirs("/tmp/vseed", exist_ok=True)
         a = sh("git -C /repo worktree add -q --detach %s HEAD" % repo)
